@@ -247,6 +247,16 @@ theorem replay_meets_spec_redis (p : Redis.Params) (hp : 0 < p.wait) (cs : List 
   exact ⟨rfl, fun h hh => (by cases hh), fun t e h => (by simp [Redis.alive, Redis.init] at h),
     fun c hc => (by cases hc), fun t h => (by cases h)⟩
 
+/-- **replay_meets_spec_etcd.**  The same for the etcd model: over EVERY command list (incl. `sleep`,
+    `revoke`, `cancelCtx`) the model's own results never make `Spec.specStep` report anything — no
+    `two-holders-within-lease`, `refused-when-free`, `blocked-when-free`, and none of the C19 tags
+    either (timing flags: none).  Invariant `Spec.JE`: every key in the queue belongs to a holder of
+    the book with a live lease or to a waiter of the book; a fresh pending waiter's deadline is where
+    the book's stopwatch says it is. -/
+theorem replay_meets_spec_etcd (p : Etcd.Params) (iv : Nat) (cs : List Etcd.Cmd) :
+    (Spec.specReplayEtcd p iv {} Etcd.init cs).viol = [] :=
+  Spec.je_replay iv cs {} Etcd.init (Spec.je_init p) (Etcd.good_init p)
+
 /-- **waiter_progress (Redis).**  A client inside `Obtain` is never stuck: its attempt is enabled, or
     it is past its deadline and `giveup` is enabled (for `TryLock` as well), or time can pass towards
     its next attempt and deadline. -/
